@@ -1218,7 +1218,8 @@ impl<'a> BenchContext<'a> {
                     sum = sum.saturating_add(sample_count);
                 }
 
-                (sum / median_samples.len() as u128) as MaxCountUInt
+                sum.checked_div(median_samples.len() as u128).unwrap_or_default()
+                    as MaxCountUInt
             };
 
             Some(StatsSet {
@@ -1262,7 +1263,10 @@ impl<'a> BenchContext<'a> {
             alloc_info.tallies.add_to_total(&mut alloc_total_tallies);
         }
 
-        let sample_size = f64::from(sample_size);
+        // With no recorded samples every numerator below is 0; keep the
+        // denominators non-zero so the figures are 0 instead of NaN.
+        let sample_size = f64::from(sample_size.max(1));
+        let total_iters = total_count.max(1) as f64;
         Stats {
             sample_count: sample_count as u32,
             iter_count: total_count,
@@ -1335,8 +1339,8 @@ impl<'a> BenchContext<'a> {
                     }
                 },
                 mean: AllocTally {
-                    count: alloc_total_max_count as f64 / total_count as f64,
-                    size: alloc_total_max_size as f64 / total_count as f64,
+                    count: alloc_total_max_count as f64 / total_iters,
+                    size: alloc_total_max_size as f64 / total_iters,
                 },
             }
             .transpose(),
@@ -1393,8 +1397,8 @@ impl<'a> BenchContext<'a> {
                         mean: {
                             let tally = alloc_total_tallies.get(op);
                             AllocTally {
-                                count: tally.count as f64 / total_count as f64,
-                                size: tally.size as f64 / total_count as f64,
+                                count: tally.count as f64 / total_iters,
+                                size: tally.size as f64 / total_iters,
                             }
                         },
                     })
